@@ -37,7 +37,7 @@ fn spend(n: &Node, id: CoinID, carrier: Option<&(CoinID, melstructs::CoinDataHei
 
 fn acts(n: &Node, thorough: bool, jumps: &[u64]) -> Vec<Action> {
     let m = &n.model;
-    let max_stakes = if thorough { 2 } else { 1 };
+    let max_stakes = 2;
     if !n.is_open() {
         // before any stake: plain blocks.  Once a stake exists: the block right after the stake block and the two blocks
         // around every epoch boundary are opened honestly, everything in between is skipped by a jump to the next boundary.
@@ -63,19 +63,25 @@ fn acts(n: &Node, thorough: bool, jumps: &[u64]) -> Vec<Action> {
     }
     let mut v = vec![];
     let cur = m.epoch();
-    let syms = coins_of(m, Denom::Sym, 2);
-    let mels = coins_of(m, Denom::Mel, 8);
-    if m.block_txs.is_empty() && m.stake_txs_seen.len() < max_stakes {
+    // SYM coins that are not themselves outputs of a stake transaction
+    let syms: Vec<_> = coins_of(m, Denom::Sym, 6).into_iter().filter(|c| !m.stake_txs_seen.contains(&c.0.txhash)).collect();
+    let mels: Vec<_> = coins_of(m, Denom::Mel, 8).into_iter().filter(|c| !m.stake_txs_seen.contains(&c.0.txhash)).collect();
+    let second = !m.stake_txs_seen.is_empty();
+    // the second stake is only offered in the block right after the first one's, and only if the first was registered
+    let second_ok = !second || (m.height <= 2 && m.stakes.keys().any(|k| m.stake_txs_seen.contains(k)));
+    if m.block_txs.is_empty() && m.stake_txs_seen.len() < max_stakes && second_ok {
         if let (Some(s), Some(mc)) = (syms.first(), mels.last()) {
             let amount = s.1.coin_data.value.0;
             let mut docs: Vec<(String, Vec<u8>, bool)> = vec![];
-            let starts: Vec<u64> = if thorough { vec![cur.saturating_sub(1), cur, cur + 1, cur + 2] } else { vec![cur, cur + 1] };
-            let ends: Vec<u64> = if thorough { vec![cur.saturating_sub(1), cur, cur + 1, cur + 2, cur + 3] } else { vec![cur + 1, cur + 2] };
+            // the second stake of a history comes from a narrower grid (consistent documents with different ends)
+            let starts: Vec<u64> = if second { vec![cur + 1] } else if thorough { vec![cur.saturating_sub(1), cur, cur + 1, cur + 2] } else { vec![cur, cur + 1] };
+            let ends: Vec<u64> = if second { vec![cur + 2, cur + 3] } else if thorough { vec![cur.saturating_sub(1), cur, cur + 1, cur + 2, cur + 3] } else { vec![cur + 1, cur + 2] };
             for es in &starts {
                 for ee in &ends {
                     docs.push((format!("stake(start={},end={})", es, ee), stake_doc_bytes(1, *es, *ee, amount), true));
                 }
             }
+            if !second {
             docs.push(("stake(amount!=output)".into(), stake_doc_bytes(1, cur + 1, cur + 2, amount + 1), true));
             docs.push(("stake(first-output-MEL)".into(), stake_doc_bytes(1, cur + 1, cur + 2, mc.1.coin_data.value.0), false));
             let good = stake_doc_bytes(1, cur + 1, cur + 2, amount);
@@ -84,11 +90,12 @@ fn acts(n: &Node, thorough: bool, jumps: &[u64]) -> Vec<Action> {
             trailing.push(0);
             docs.push(("stake(trailing-byte)".into(), trailing, true));
             docs.push(("stake(empty-doc)".into(), vec![], true));
+            }
             for (i, (label, data, sym_first)) in docs.iter().enumerate() {
                 let t = stake_tx(n, s, mc, data.clone(), *sym_first, i as u8);
                 v.push(Action::Batch { label: label.clone(), txs: vec![t.clone()], expect_ok: false });
                 // spend attempts of both outputs in the same batch, both orders
-                if label.contains("start=") || label.contains("amount") {
+                if !second && (label.contains("start=") || label.contains("amount")) {
                     for idx in [0u8, 1] {
                         let id = t.output_coinid(idx);
                         let o = &t.outputs[idx as usize];
@@ -171,7 +178,7 @@ pub fn run(run: &Run) {
     let jumps: Vec<u64> = vec![199_998, 399_998, 599_998, 799_998];
     let mut initial: BTreeMap<melstructs::TxHash, StakeDoc> = BTreeMap::new();
     initial.insert(melstructs::TxHash(tmelcrypt::HashVal([0x61; 32])), StakeDoc { pubkey: key(2).0, e_start: 0, e_post_end: 2, syms_staked: melstructs::CoinValue(5) });
-    let depth = if thorough { 26 } else { 22 };
+    let depth = if thorough { 32 } else { 28 };
     for (name, net, fm) in [("custom02", NetID::Custom02, 0u128), ("custom02-fees", NetID::Custom02, 65536)] {
         if !thorough && fm > 0 {
             continue;
